@@ -100,11 +100,15 @@ func c08Round3(c *Ctx) {
 	}
 }
 
-func c09Round3(c *Ctx) {
-	// the nonce advance and the fee debit made by AuthenticateTx are kept when the handler fails: DeliverTx runs
-	// executeTx on the block-level context it got from NewContext, not on a NewTransaction child that is dropped on
-	// failure (the handlers open their own transactions for what must be rolled back).
-	fn := c.needFn("C09.nonce", "consensus/cometbft/abci.(*abciMux).DeliverTx")
+func c09Round3(c *Ctx) { deliverContextRule(c, "C09.nonce") }
+
+// deliverContextRule (shared: C09 — a failed transaction's nonce advance is kept, so its bytes cannot be replayed;
+// C05 — its fee debit is kept, so the fee that stays in the block's fee accumulator is not minted; C08 — fee and nonce
+// are exactly what a failed transaction changes): the nonce advance and the fee debit made by AuthenticateTx are kept
+// when the handler fails: DeliverTx runs executeTx on the block-level context it got from NewContext, not on a
+// NewTransaction child that is dropped on failure (the handlers open their own transactions for what must be rolled back).
+func deliverContextRule(c *Ctx, rule string) {
+	fn := c.needFn(rule, "consensus/cometbft/abci.(*abciMux).DeliverTx")
 	if fn == nil {
 		return
 	}
@@ -112,7 +116,7 @@ func c09Round3(c *Ctx) {
 	calls := findCalls(fn, "consensus/cometbft/abci.(*abciMux).executeTx")
 	inst := fname(fn) + ":executeTx runs on the block-level delivery context"
 	if len(calls) == 0 {
-		c.Fail("C09.nonce", inst, c.P.Pos(fn.Pos()), "no executeTx call found in DeliverTx")
+		c.Fail(rule, inst, c.P.Pos(fn.Pos()), "no executeTx call found in DeliverTx")
 		return
 	}
 	ok := true
@@ -125,7 +129,7 @@ func c09Round3(c *Ctx) {
 			site = c.P.InstrPos(call)
 		}
 	}
-	c.Check(ok, "C09.nonce", inst, site, "the context handed to executeTx is the result of state.NewContext(ContextDeliverTx)", "DeliverTx executes the transaction on a child transaction context (or something other than the NewContext result): when the handler fails and the child is dropped, the nonce increment and the fee debit of AuthenticateTx are undone while the fee stays in the block's fee accumulator — the same bytes can be replayed and each replay mints its fee")
+	c.Check(ok, rule, inst, site, "the context handed to executeTx is the result of state.NewContext(ContextDeliverTx)", "DeliverTx executes the transaction on a child transaction context (or something other than the NewContext result): when the handler fails and the child is dropped, the nonce increment and the fee debit of AuthenticateTx are undone while the fee stays in the block's fee accumulator — the same bytes can be replayed and each replay mints its fee")
 }
 
 // c09Envelope (round-3 side observation, known finding F41): "altered in any bit never takes effect". The signature covers
